@@ -10,7 +10,9 @@ import (
 
 // JSONOpts selects the flavour of the reference RFC 7951 document.
 type JSONOpts struct {
-	ModulePrefix bool // prefix member names with the module name where RFC 7951 requires it
+	ModulePrefix   bool // prefix member names with the module name where RFC 7951 requires it
+	IdentityPrefix bool // identityref values as module:name (RFC 7951) instead of the bare name
+	MarkDecimals   bool // decimal64 strings as conc.Decimal
 }
 
 // node is the intermediate data-tree form of a document.
@@ -21,6 +23,9 @@ type jnode struct {
 	order    []string
 	entries  []*jnode // list entries in order
 	isList   bool
+	// reference-document mode only:
+	unordered bool // array of an unordered list
+	prunable  bool // non-presence container: not rendered when empty
 }
 
 func newObj() *jnode { return &jnode{children: map[string]*jnode{}} }
@@ -35,6 +40,10 @@ func (n *jnode) child(name string) *jnode {
 	return c
 }
 
+// Unordered marks the array of an unordered (ordered-by system) list in a reference
+// document: entry order is not significant when comparing.
+type Unordered []interface{}
+
 func (n *jnode) value() interface{} {
 	if n.isLeaf {
 		return n.leaf
@@ -44,13 +53,35 @@ func (n *jnode) value() interface{} {
 		for _, e := range n.entries {
 			out = append(out, e.value())
 		}
+		if n.unordered {
+			return Unordered(out)
+		}
 		return out
 	}
 	m := map[string]interface{}{}
 	for k, c := range n.children {
+		if c.prunable && !c.isLeaf && !c.isList && c.empty() {
+			continue
+		}
 		m[k] = c.value()
 	}
 	return m
+}
+
+// empty reports whether an object renders without members (recursively prunable).
+func (n *jnode) empty() bool {
+	if n.isLeaf {
+		return false
+	}
+	if n.isList {
+		return len(n.entries) == 0
+	}
+	for _, c := range n.children {
+		if !(c.prunable && !c.isLeaf && c.empty()) {
+			return false
+		}
+	}
+	return true
 }
 
 // dataSteps maps one abstract step (name at schema position pos, leaf or not) to the
@@ -120,6 +151,7 @@ func (x *Ctx) RenderJSON(t *abs.Tree, at abs.Path, pkg *reg.Pkg, o JSONOpts) int
 			if len(full) <= len(x.V.Prefix()) {
 				cur = cur.child(name(s, top))
 				top = false
+				cur.prunable = o.MarkDecimals
 				continue
 			}
 			pos := x.posOfAbs(full)
@@ -130,6 +162,9 @@ func (x *Ctx) RenderJSON(t *abs.Tree, at abs.Path, pkg *reg.Pkg, o JSONOpts) int
 					top = false
 				}
 				cur.isList = true
+				if o.MarkDecimals && !x.isOrderedPos(pos) {
+					cur.unordered = true
+				}
 				i++
 				key := rel[i]
 				full = append(full, key)
@@ -149,7 +184,7 @@ func (x *Ctx) RenderJSON(t *abs.Tree, at abs.Path, pkg *reg.Pkg, o JSONOpts) int
 						for j, k := range kn {
 							typ := x.TypeAt(pos + "/" + k)
 							ent.child(k).isLeaf = true
-							ent.children[k].leaf = JSONValue(parts[j], typ)
+							ent.children[k].leaf = x.jsonVal(parts[j], typ, o)
 						}
 					}
 				}
@@ -159,6 +194,9 @@ func (x *Ctx) RenderJSON(t *abs.Tree, at abs.Path, pkg *reg.Pkg, o JSONOpts) int
 			for _, d := range x.dataSteps(s, pos, false, pkg) {
 				cur = cur.child(name(d, top))
 				top = false
+				if o.MarkDecimals && !x.IsPresence(pos) {
+					cur.prunable = true
+				}
 			}
 		}
 		return cur
@@ -205,25 +243,44 @@ func (x *Ctx) RenderJSON(t *abs.Tree, at abs.Path, pkg *reg.Pkg, o JSONOpts) int
 		for _, d := range x.dataSteps(rel[len(rel)-1], pos, true, pkg) {
 			cur = cur.child(name(d, top))
 			top = false
+			cur.prunable = o.MarkDecimals
 		}
 		cur.isLeaf = true
 		cur.leaf = v
 	}
 	for k, v := range t.Leaves {
 		full := abs.Path(strings.Split(k, abs.Sep))
-		setLeaf(k, JSONValue(v, x.TypeAt(x.posOfAbs(full))))
+		setLeaf(k, x.jsonVal(v, x.TypeAt(x.posOfAbs(full)), o))
 	}
 	for k, vs := range t.LL {
 		full := abs.Path(strings.Split(k, abs.Sep))
 		typ := x.TypeAt(x.posOfAbs(full))
 		arr := []interface{}{}
 		for _, v := range vs {
-			arr = append(arr, JSONValue(v, typ))
+			arr = append(arr, x.jsonVal(v, typ, o))
 		}
 		setLeaf(k, arr)
 	}
 	strip(root)
 	return root.value()
+}
+
+// jsonVal encodes a scalar. Documents used as input payloads (no option set) carry the
+// identityref module prefix, as RFC 7951 prescribes.
+func (x *Ctx) jsonVal(c, typ string, o JSONOpts) interface{} {
+	if !o.MarkDecimals && !o.IdentityPrefix {
+		return JSONValueOpt(c, typ, true, false)
+	}
+	return JSONValueOpt(c, typ, o.IdentityPrefix, o.MarkDecimals)
+}
+
+func (x *Ctx) isOrderedPos(pos string) bool {
+	for _, o := range x.C.Ordered {
+		if o == pos {
+			return true
+		}
+	}
+	return false
 }
 
 func strip(n *jnode) {
